@@ -556,6 +556,17 @@ def main(pid, tier, seed):
                 out.append({"obligation": "can_signal_parser.c", "verdict": "unknown", "reason": str(e)})
             for name, src in gen_family(seed, tier):
                 generated_obligations(name, src, out, samples, scratch)
+            # the Python half of the C generator that is under a PyVC contract (carrier width selection)
+            try:
+                from pv import run as prun
+                for r in prun.run_targets(["fcp_can_c.can_c_writer:ceil_to_power_of_2"], timeout_ms=10000 if tier == "quick" else 60000, jobs=2):
+                    if r.get("error") or r.get("undecided"):
+                        out.append({"obligation": "py:" + r["target"], "verdict": "unknown", "reason": str(r.get("error") or r.get("undecided"))[:300]})
+                    for n, o in r.get("obligations", {}).items():
+                        out.append({"obligation": "py:" + n, "verdict": "proved" if o["verdict"] == "proved" else ("refuted" if o["verdict"] == "refuted" else "unknown"),
+                                    "solver_s": o.get("solver_s"), "backend": "PyVC / z3 (case split 1..64)", "reason": json.dumps(o.get("detail"))[:300] if o.get("detail") else None})
+            except Exception as e:
+                out.append({"obligation": "py:fcp_can_c.can_c_writer:ceil_to_power_of_2", "verdict": "unknown", "reason": "PyVC: " + repr(e)[:200]})
         else:
             for name, src in gen_family(seed, tier):
                 scheduler_obligations(name, src, out, samples, scratch)
